@@ -150,7 +150,7 @@ def c18(out_tree):
                 # end of file: text after last newline must be empty
                 if lines[-1] != b"":
                     seen("trailing-whitespace", {"ctx": ctx, "at": start, "eof": True})
-                if seg.count(b"\n") > 1:
+                if seg.count(b"\n") > 2:
                     seen("blank-lines", {"ctx": ctx, "n": seg.count(b"\n") - 1, "eof": True})
             elif seg.count(b"\n") > 2:
                 seen("blank-lines", {"ctx": ctx, "n": seg.count(b"\n") - 1})
@@ -179,6 +179,7 @@ def c18(out_tree):
             ols = src.rfind(b"\n", 0, opener.start_byte) + 1
             oind = len(src[ols : opener.start_byte]) - len(src[ols : opener.start_byte].lstrip(b" "))
             cind = n.start_byte - ls
-            if oind != cind and ols != ls:
+            first_on_line = src[ols : opener.start_byte].strip(b" ") == b""
+            if first_on_line and oind != cind and ols != ls:
                 seen("closer-indent", {"closer": n.type, "parent": n.parent.type, "opener_line_indent": oind, "closer_indent": cind})
     return fails
